@@ -297,15 +297,15 @@ c08!(c08_u_send_partial_1, 24, send_partial(1));
 // @harness props=C08 tier=quick reach=off bound="send_message(header+u64): send call 1 fails once with EAGAIN, 13 bytes accepted per call" stubs="vmm-sys-util raw_recvmsg/raw_sendmsg (ghost stream socket with delivery cuts / partial accepts), close, OwnedFd::drop"
 c08!(c08_u_send_retry_eagain_1, 4, send_retry(libc::EAGAIN, 1));
 // @harness props=C08 tier=thorough reach=off bound="send_message(header+u64): send call 2 fails once with EAGAIN, 13 bytes accepted per call" stubs="vmm-sys-util raw_recvmsg/raw_sendmsg (ghost stream socket with delivery cuts / partial accepts), close, OwnedFd::drop"
-c08!(c08_u_send_retry_eagain_2, 6, send_retry(libc::EAGAIN, 2));
+c08!(c08_u_send_retry_eagain_2, 4, send_retry(libc::EAGAIN, 2));
 // @harness props=C08 tier=thorough reach=off bound="send_message(header+u64): send call 1 fails once with EINTR, 13 bytes accepted per call" stubs="vmm-sys-util raw_recvmsg/raw_sendmsg (ghost stream socket with delivery cuts / partial accepts), close, OwnedFd::drop"
-c08!(c08_u_send_retry_eintr_1, 6, send_retry(libc::EINTR, 1));
+c08!(c08_u_send_retry_eintr_1, 4, send_retry(libc::EINTR, 1));
 // @harness props=C08 tier=quick reach=off bound="send_message(header+u64): send call 2 fails once with EINTR, 13 bytes accepted per call" stubs="vmm-sys-util raw_recvmsg/raw_sendmsg (ghost stream socket with delivery cuts / partial accepts), close, OwnedFd::drop"
 c08!(c08_u_send_retry_eintr_2, 4, send_retry(libc::EINTR, 2));
 // @harness props=C08 tier=thorough reach=off bound="send_message(header+u64): send call 1 fails once with ENOBUFS, 13 bytes accepted per call" stubs="vmm-sys-util raw_recvmsg/raw_sendmsg (ghost stream socket with delivery cuts / partial accepts), close, OwnedFd::drop"
-c08!(c08_u_send_retry_enobufs_1, 6, send_retry(libc::ENOBUFS, 1));
+c08!(c08_u_send_retry_enobufs_1, 4, send_retry(libc::ENOBUFS, 1));
 // @harness props=C08 tier=thorough reach=off bound="send_message(header+u64): send call 2 fails once with ENOBUFS, 13 bytes accepted per call" stubs="vmm-sys-util raw_recvmsg/raw_sendmsg (ghost stream socket with delivery cuts / partial accepts), close, OwnedFd::drop"
-c08!(c08_u_send_retry_enobufs_2, 6, send_retry(libc::ENOBUFS, 2));
+c08!(c08_u_send_retry_enobufs_2, 4, send_retry(libc::ENOBUFS, 2));
 // @harness props=C08 tier=quick reach=off bound="recv_data(8): request body delivered in two segments cut at byte 1; all body values" stubs="vmm-sys-util raw_recvmsg/raw_sendmsg (ghost stream socket with delivery cuts / partial accepts), close, OwnedFd::drop"
 c08!(c08_u_data_split_1, 5, data_split(1));
 // @harness props=C08 tier=quick reach=off bound="recv_data(8): request body delivered in two segments cut at byte 4; all body values" stubs="vmm-sys-util raw_recvmsg/raw_sendmsg (ghost stream socket with delivery cuts / partial accepts), close, OwnedFd::drop"
